@@ -4,6 +4,8 @@
 #include <omp.h>
 
 #include "common/celltools.hpp"
+#include <cstring>
+
 #include "common/engine.hpp"
 #include "common/meshgen.hpp"
 
@@ -107,6 +109,21 @@ struct NodeState {
     bool used;
 };
 
+// strictly increasing ids with gaps (what removals and divisions leave behind), derived from the content of the case
+static unsigned id_offset(const Case& k, size_t i) {
+    uint64_t b;
+    memcpy(&b, &k.dt, 8);
+    uint64_t h = b * 0x9e3779b97f4a7c15ull;
+    h ^= h >> 29;
+    if (h % 3 == 0) return 0;
+    unsigned off = (unsigned)((h >> 8) % 4);
+    for (size_t q = 0; q < i; q++) {
+        h = h * 6364136223846793005ull + 1442695040888963407ull;
+        off += (unsigned)((h >> 40) % 3);
+    }
+    return off;
+}
+
 static std::string run(const Case& k, vf::Ctx& ctx) {
     ct::CellScope scope;
     std::vector<cell_ptr> cells;
@@ -123,7 +140,8 @@ static std::string run(const Case& k, vf::Ctx& ctx) {
         type->global_type_id_ = (short)cs.cls;
         cell_ptr c;
         try {
-            c = ct::make_cell_of_class(cs.cls, m, (unsigned)i, type);
+            // persistent ids are larger than the positions in the list once a population has seen removals or divisions (2/3 of the cases)
+            c = ct::make_cell_of_class(cs.cls, m, (unsigned)i + id_offset(k, i), type);
         } catch (const std::exception& e) {
             return std::string("cell rejects generated mesh: ") + e.what();
         }
